@@ -28,4 +28,19 @@ PROPS = {
             "Go int(f) on amd64 yields -2^63 for NaN/out-of-range (driver instance; validated by the sweep)",
         ],
     },
+    "C12": {
+        "modules": ["EvyV.Props.C12"],
+        "hx": ["c12"],
+        "technique": "Lean 4 refinement proof (Go map + key slice refines an insertion-ordered dictionary, for all histories, incl. iteration with mutation) + exhaustive small-scope correspondence",
+        "level_text": "mapVal (Pairs next to Order), SetKey, Delete, Get, has, len, String, Equals and mapRange are modelled in Lean; an invariant (Order duplicate-free and in step with Pairs) is proved for every history and every operation is proved to refine the specification's insertion-ordered dictionary (overwrite keeps position, delete+insert moves to the end, missing key panics, printing/iteration follow insertion order, iteration with arbitrary mutation in the body visits exactly the snapshot keys still present). Tied to the code by exhaustive histories through the real evaluator (two aliases, both spellings).",
+        "level_note": "Trusted: Lean kernel, harness. Values are opaque (any V); deep equality of values is a parameter of equals_iff. Literal construction with duplicate-free keys is validated by the sweep (the parser rejects duplicate keys).",
+        "obligations": [
+            "EvyV.C12.inv_empty", "EvyV.C12.inv_setKey", "EvyV.C12.inv_delete", "EvyV.C12.abs_setKey", "EvyV.C12.abs_delete",
+            "EvyV.C12.get_abs", "EvyV.C12.has_abs", "EvyV.C12.len_abs", "EvyV.C12.entries_abs", "EvyV.C12.history_refines",
+            "EvyV.C12.history_from_empty", "EvyV.C12.spec_overwrite_keeps_position", "EvyV.C12.spec_new_key_goes_last",
+            "EvyV.C12.spec_delete_reinsert_moves_to_end", "EvyV.C12.range_refines", "EvyV.C12.range_visits_sublist",
+            "EvyV.C12.range_no_mutation", "EvyV.C12.equals_order_free", "EvyV.C12.equals_iff",
+        ],
+        "assumptions": ["map values are opaque; keys are strings (code-point lists)", "aliases share one mapVal, so a history is the interleaving of all aliases' operations"],
+    },
 }
